@@ -111,6 +111,19 @@ def fmtNumWith (fl : Flags) (n : NInt) : Str :=
     | .center => (padAmt / 2, padAmt - padAmt / 2)
   List.replicate l fl.pad ++ s ++ List.replicate r fl.pad
 
+/-- `NNum::repr` of an integer (`n.to_string()`): what a list shows for its elements, whatever the
+format flags say (core.rs `write_slice` switches `flags.repr` on) -/
+def reprNInt (n : NInt) : Str := fmtNInt .decimal n
+
+/-- core.rs `MyDisplay for Obj`, `Seq::List` arm on a list of integers: `[a, b, c]` with each
+element in `repr` form (no budget: `str`, `$`, `print`, format strings pass `usize::MAX`) -/
+def fmtIntList (xs : List NInt) : Str :=
+  let rec go : List NInt → Str
+    | [] => []
+    | [x] => reprNInt x
+    | x :: rest => reprNInt x ++ [44, 32] ++ go rest
+  [91] ++ go xs ++ [93]
+
 /-- `str(n)`, `$n`, `print(n)`, `F"{n}"`: `format!("{}", n)` -/
 def showNInt (n : NInt) : Str := fmtNInt .decimal n
 
